@@ -6,6 +6,7 @@ from ..tensorflow_wrapper import tf
 from .model import (
     Model,
     clip_log,
+    grad_hessp_from_hessian,
     register_nll_model,
     sum_gradient,
     sum_hessian,
@@ -85,6 +86,12 @@ class Model_cfit(Model):
         )
         nll_0 = -tf.reduce_sum(tf.cast(weight_norm, ln_data.dtype) * ln_data)
         return nll_0
+
+    def grad_hessp_batch(self, p, data, mcdata, weight, mc_weight):
+        # the default Hessian-vector product does not describe the mixture likelihood
+        return grad_hessp_from_hessian(
+            self, p, data, mcdata, weight, mc_weight
+        )
 
     def nll_grad_batch(self, data, mcdata, weight, mc_weight):
         r"""
@@ -339,6 +346,12 @@ class ModelCfitExtended(Model):
             + n_exp
         )
         return nll_0
+
+    def grad_hessp_batch(self, p, data, mcdata, weight, mc_weight):
+        # the default Hessian-vector product does not describe the mixture likelihood
+        return grad_hessp_from_hessian(
+            self, p, data, mcdata, weight, mc_weight
+        )
 
     def nll_grad_batch(self, data, mcdata, weight, mc_weight):
         r"""
